@@ -73,6 +73,11 @@ pub struct MirrorCase {
     /// the upstream body: the bundled mirrors register no unmock function)
     #[serde(default)]
     pub partial: bool,
+    /// how the mock ends its life after the drive: 0 = dropped, 1 = `Termination::report()` (what a `#[test]`
+    /// returning the mock does), 2 = `verify()`. The verdict is irrelevant here (most mirrored methods were never
+    /// called); ending must not panic for a reason other than unmet expectations
+    #[serde(default)]
+    pub finish: u8,
 }
 
 /// Script state shared by the mock's answer functions and by the plain struct.
@@ -559,7 +564,21 @@ fn run_mock(c: &MirrorCase) -> (String, Vec<String>) {
         }
         Drive::Pwm(sel, _, x) => pwm_drive(&mut u, *sel, *x),
     };
-    drop(u);
+    match c.finish % 3 {
+        1 => {
+            use std::process::Termination;
+            let _code = u.report();
+        }
+        2 => {
+            if let Err(msg) = catch(move || u.verify()) {
+                // unmet expectations are expected; lifecycle complaints are not
+                if msg.contains("clones still alive") || msg.contains("different thread") {
+                    panic!("verify() after the drive: {msg}");
+                }
+            }
+        }
+        _ => drop(u),
+    }
     let log = s.lock().unwrap().log.clone();
     (out, log)
 }
@@ -708,7 +727,7 @@ pub fn check(c: &MirrorCase) -> Result<CaseInfo, String> {
         Drive::SpiTransferInPlace(_) => "SpiDevice::transfer_in_place",
         Drive::Pwm(..) => "SetDutyCycle::set_duty_cycle_*",
     };
-    Ok(CaseInfo::new(short || plain.1.len() >= 2).class(name).class_if(short, "short-transfer-or-error-in-script").class_if(c.partial, "partial-mock"))
+    Ok(CaseInfo::new(short || plain.1.len() >= 2).class(name).class_if(short, "short-transfer-or-error-in-script").class_if(c.partial, "partial-mock").class_if(c.finish % 3 == 1, "ended-by-report()").class_if(c.finish % 3 == 2, "ended-by-verify()"))
 }
 
 fn step_strategy() -> impl Strategy<Value = Step> {
@@ -752,8 +771,9 @@ pub fn case_strategy() -> impl Strategy<Value = MirrorCase> {
         vec(prop_oneof![4 => 97..123u8, 1 => Just(b'\n'), 1 => any::<u8>()], 0..16),
         drive_strategy(),
         any::<bool>(),
+        0..3u8,
     )
-        .prop_map(|(script, data, drive, partial)| MirrorCase { script, data, drive, partial })
+        .prop_map(|(script, data, drive, partial, finish)| MirrorCase { script, data, drive, partial, finish })
 }
 
 // ------------------------------------------------------------------ wiring sweep
